@@ -1075,5 +1075,556 @@ theorem applyFixups_ok (e : Endian) (units : List Offs) : ∀ (fx : List IFix) (
         · obtain ⟨o', off', b', x0, x1, x2, x3⟩ := i2 g hg
           exact ⟨o', off', b', x0, x1, x2, by rw [← l1]; exact x3⟩
 
+/-! ## patching -/
+
+/-- what `EndianVec::write_at` leaves in the buffer, byte by byte -/
+theorem writeAt_getElem? (buf : Bytes) (pos : Nat) (new out : Bytes) (h : writeAt buf pos new = .ok out) :
+    ∀ i, out[i]? = if pos ≤ i ∧ i < pos + new.length then new[i - pos]? else buf[i]? := by
+  unfold writeAt at h
+  split at h
+  · simp at h
+  · split at h
+    · simp at h
+    · rename_i h1 h2
+      simp only [Out.ok.injEq] at h
+      subst h
+      intro i
+      have hp : pos ≤ buf.length := by omega
+      simp only [List.getElem?_append, List.length_append, List.length_take, Nat.min_eq_left hp,
+        List.getElem?_take, List.getElem?_drop]
+      by_cases c1 : i < pos
+      · have hn : ¬ pos ≤ i := by omega
+        simp [c1, hn, show i < pos + new.length by omega]
+      · by_cases c2 : i < pos + new.length
+        · have : pos ≤ i := by omega
+          simp [c1, c2, this]
+        · have h3 : ¬ (pos ≤ i ∧ i < pos + new.length) := by omega
+          simp only [c2, c1, if_false]
+          have e1 : pos + new.length + (i - (pos + new.length)) = i := by omega
+          simp [e1]
+
+/-- patches in increasing order, pairwise disjoint, all inside `[lo, hi)` -/
+def Placed : Nat → Nat → List (Nat × Nat) → Prop
+  | lo, hi, [] => lo ≤ hi
+  | lo, hi, (p, size) :: rest => lo ≤ p ∧ Placed (p + size) hi rest
+
+theorem Placed.le : ∀ {l : List (Nat × Nat)} {lo hi : Nat}, Placed lo hi l → lo ≤ hi
+  | [], _, _, h => h
+  | (p, size) :: rest, lo, hi, h => by
+    have := Placed.le h.2
+    have := h.1
+    omega
+
+theorem Placed.weaken : ∀ {l : List (Nat × Nat)} {lo hi lo' hi' : Nat}, Placed lo hi l → lo' ≤ lo → hi ≤ hi' →
+    Placed lo' hi' l
+  | [], _, _, _, _, h, h1, h2 => by simp only [Placed] at h ⊢; omega
+  | (p, size) :: rest, lo, hi, lo', hi', h, h1, h2 =>
+    ⟨by have := h.1; omega, Placed.weaken h.2 (Nat.le_refl _) h2⟩
+
+theorem Placed.append : ∀ {a b : List (Nat × Nat)} {lo mid hi : Nat}, Placed lo mid a → Placed mid hi b →
+    Placed lo hi (a ++ b)
+  | [], b, lo, mid, hi, ha, hb => by
+    simp only [Placed] at ha
+    exact Placed.weaken hb ha (Nat.le_refl _)
+  | (p, size) :: rest, b, lo, mid, hi, ha, hb => ⟨ha.1, Placed.append ha.2 hb⟩
+
+/-- a run of `write_at` calls -/
+def applyPatches (buf : Bytes) : List (Nat × Bytes) → Out Bytes
+  | [] => .ok buf
+  | (pos, b) :: rest => do
+    let buf ← writeAt buf pos b
+    applyPatches buf rest
+
+/-- **Patches that do not overlap all survive**: after the run every patch's bytes stand at its
+position and every byte outside `[lo, hi)` is untouched. -/
+theorem applyPatches_placed : ∀ (ps : List (Nat × Bytes)) (buf out : Bytes) (lo hi : Nat),
+    applyPatches buf ps = .ok out → Placed lo hi (ps.map (fun p => (p.1, p.2.length))) →
+    (∀ p ∈ ps, ∀ i, i < p.2.length → out[p.1 + i]? = p.2[i]?) ∧
+    (∀ i, i < lo ∨ hi ≤ i → out[i]? = buf[i]?) ∧ out.length = buf.length
+  | [], buf, out, lo, hi, h, _ => by
+    simp only [applyPatches, Out.ok.injEq] at h
+    subst h; simp
+  | (pos, b) :: rest, buf, out, lo, hi, h, hp => by
+    rw [applyPatches] at h
+    obtain ⟨buf1, hw, h⟩ := bind_ok_inv h
+    simp only [List.map_cons, Placed] at hp
+    obtain ⟨i1, i2, i3⟩ := applyPatches_placed rest buf1 out (pos + b.length) hi h hp.2
+    have hg := writeAt_getElem? _ _ _ _ hw
+    have hle := Placed.le hp.2
+    refine ⟨?_, ?_, i3.trans (writeAt_length _ _ _ _ hw).1⟩
+    · intro p hmem i hi'
+      simp only [List.mem_cons] at hmem
+      rcases hmem with hmem | hmem
+      · subst hmem
+        simp only at hi' ⊢
+        rw [i2 (pos + i) (Or.inl (by omega)), hg]
+        have : pos ≤ pos + i ∧ pos + i < pos + b.length := by omega
+        simp [this]
+      · exact i1 p hmem i hi'
+    · intro i hi'
+      rw [i2 i (by omega), hg]
+      have : ¬ (pos ≤ i ∧ i < pos + b.length) := by have := hp.1; omega
+      simp [this]
+
+
+def holesU (word : Nat) (em : Emit) : List (Nat × Nat) := em.urefs.map (fun r => (r.1, word))
+def holesI (fx : List IFix) : List (Nat × Nat) := fx.map (fun f => (f.pos, f.size))
+
+theorem exprItemsEmit_placed (cx : Ctx) : ∀ (items : List ExprItem) (pos : Nat) (bs : Bytes) (fx : List IFix),
+    exprItemsEmit cx pos items = .ok (bs, fx) → Placed pos (pos + bs.length) (holesI fx)
+  | [], pos, bs, fx, h => by
+    simp only [exprItemsEmit, Out.ok.injEq, Prod.mk.injEq] at h
+    obtain ⟨h1, h2⟩ := h
+    subst h1 h2
+    simp [holesI, Placed]
+  | it :: rest, pos, bs, fx, h => by
+    rw [exprItemsEmit] at h
+    obtain ⟨⟨a, fa⟩, ha, h⟩ := bind_ok_inv h
+    obtain ⟨⟨r, fr⟩, hr, h⟩ := bind_ok_inv h
+    simp only [Out.pure_eq, Out.ok.injEq, Prod.mk.injEq] at h
+    obtain ⟨h1, h2⟩ := h
+    subst h1 h2
+    have ih := exprItemsEmit_placed cx rest _ r fr hr
+    have hfirst : Placed pos (pos + a.length) (holesI fa) := by
+      cases it with
+      | raw b =>
+        simp only [exprItemEmit, Out.ok.injEq, Prod.mk.injEq] at ha
+        obtain ⟨h1, h2⟩ := ha; subst h1 h2; simp [holesI, Placed]
+      | convert id =>
+        simp only [exprItemEmit] at ha
+        obtain ⟨u, _, ha⟩ := bind_ok_inv ha
+        cases u with
+        | none => simp at ha
+        | some u =>
+          simp only [Out.pure_eq, Out.ok.injEq, Prod.mk.injEq] at ha
+          obtain ⟨h1, h2⟩ := ha; subst h1 h2; simp [holesI, Placed]
+      | call id =>
+        simp only [exprItemEmit] at ha
+        obtain ⟨u, _, ha⟩ := bind_ok_inv ha
+        cases u with
+        | none => simp at ha
+        | some u =>
+          simp only at ha
+          obtain ⟨b, _, ha⟩ := bind_ok_inv ha
+          simp only [Out.pure_eq, Out.ok.injEq, Prod.mk.injEq] at ha
+          obtain ⟨h1, h2⟩ := ha; subst h1 h2; simp [holesI, Placed]
+      | callRef unit id =>
+        simp only [exprItemEmit] at ha
+        obtain ⟨b, hb, ha⟩ := bind_ok_inv ha
+        simp only [Out.pure_eq, Out.ok.injEq, Prod.mk.injEq] at ha
+        obtain ⟨h1, h2⟩ := ha; subst h1 h2
+        have := writeUdata_length _ _ _ _ hb
+        simp only [holesI, List.map_cons, List.map_nil, Placed, List.length_cons]
+        omega
+    simp only [holesI, List.map_append, List.length_append] at ih ⊢
+    rw [← Nat.add_assoc]
+    exact Placed.append hfirst ih
+
+theorem attrEmit_placed (cx : Ctx) (pos : Nat) (v : AttrVal) (em : Emit) (h : attrEmit cx pos v = .ok em) :
+    Placed pos (pos + em.bytes.length) (holesU cx.enc.word em) ∧
+    Placed pos (pos + em.bytes.length) (holesI em.ifix) := by
+  cases v <;> simp only [attrEmit] at h
+  case addressSym | debugInfoRefSym => simp at h
+  case block | data1 | data2 | data4 | data8 | data16 | sdata | implicitConst | udata | flag
+      | flagPresent | debugTypesRef | string | constClass =>
+    simp only [Out.ok.injEq] at h; subst h; simp [holesU, holesI, Placed, Emit.ofBytes]
+  case lineProgramRef =>
+    cases hl : cx.lineProgram with
+    | none => simp [hl] at h
+    | some off =>
+      simp only [hl] at h
+      obtain ⟨b, _, h⟩ := bind_ok_inv h
+      simp only [Out.pure_eq, Out.ok.injEq] at h; subst h; simp [holesU, holesI, Placed, Emit.ofBytes]
+  case exprloc items =>
+    obtain ⟨sz, _, h⟩ := bind_ok_inv h
+    obtain ⟨⟨body, fx⟩, hb, h⟩ := bind_ok_inv h
+    simp only [Out.pure_eq, Out.ok.injEq] at h; subst h
+    have := exprItemsEmit_placed cx items _ body fx hb
+    refine ⟨by simp [holesU, Placed], ?_⟩
+    simp only [List.length_append]
+    rw [← Nat.add_assoc]
+    exact Placed.weaken this (by omega) (Nat.le_refl _)
+  case stringRef idx =>
+    obtain ⟨off, _, h⟩ := bind_ok_inv h
+    obtain ⟨b, _, h⟩ := bind_ok_inv h
+    simp only [Out.pure_eq, Out.ok.injEq] at h; subst h; simp [holesU, holesI, Placed, Emit.ofBytes]
+  case lineStringRef idx =>
+    obtain ⟨off, _, h⟩ := bind_ok_inv h
+    obtain ⟨b, _, h⟩ := bind_ok_inv h
+    simp only [Out.pure_eq, Out.ok.injEq] at h; subst h; simp [holesU, holesI, Placed, Emit.ofBytes]
+  case unitRef id =>
+    obtain ⟨b, hb, h⟩ := bind_ok_inv h
+    simp only [Out.pure_eq, Out.ok.injEq] at h; subst h
+    have := writeUdata_length _ _ _ _ hb
+    simp [holesU, holesI, Placed, this]
+  case debugInfoRef unit id =>
+    obtain ⟨b, hb, h⟩ := bind_ok_inv h
+    simp only [Out.pure_eq, Out.ok.injEq] at h; subst h
+    have := writeUdata_length _ _ _ _ hb
+    simp [holesU, holesI, Placed, this]
+  all_goals
+    (obtain ⟨b, _, h⟩ := bind_ok_inv h
+     simp only [Out.pure_eq, Out.ok.injEq] at h; subst h; simp [holesU, holesI, Placed, Emit.ofBytes])
+
+theorem holesU_append (word : Nat) (a b : Emit) : holesU word (a ++ b) = holesU word a ++ holesU word b := by
+  simp [holesU]
+
+theorem attrsEmit_placed (cx : Ctx) : ∀ (attrs : List (Nat × AttrVal)) (pos : Nat) (em : Emit),
+    attrsEmit cx pos attrs = .ok em →
+    Placed pos (pos + em.bytes.length) (holesU cx.enc.word em) ∧
+    Placed pos (pos + em.bytes.length) (holesI em.ifix)
+  | [], pos, em, h => by
+    simp only [attrsEmit, Out.ok.injEq] at h; subst h; simp [holesU, holesI, Placed]
+  | (n, v) :: rest, pos, em, h => by
+    rw [attrsEmit] at h
+    obtain ⟨a, ha, h⟩ := bind_ok_inv h
+    obtain ⟨r, hr, h⟩ := bind_ok_inv h
+    simp only [Out.pure_eq, Out.ok.injEq] at h; subst h
+    obtain ⟨a1, a2⟩ := attrEmit_placed cx pos v a ha
+    obtain ⟨r1, r2⟩ := attrsEmit_placed cx rest _ r hr
+    simp only [Emit.append_bytes, List.length_append, ← Nat.add_assoc, holesU_append, Emit.append_ifix,
+      holesI, List.map_append]
+    exact ⟨Placed.append a1 r1, Placed.append a2 (by simpa [holesI] using r2)⟩
+
+theorem holesI_append (a b : List IFix) : holesI (a ++ b) = holesI a ++ holesI b := by simp [holesI]
+
+mutual
+theorem emitTree_placed (cx : Ctx) : ∀ (t : Tree) (pos : Nat) (em : Emit), emitTree cx pos t = .ok em →
+    Placed pos (pos + em.bytes.length) (holesU cx.enc.word em) ∧
+    Placed pos (pos + em.bytes.length) (holesI em.ifix)
+  | .node id tag sib attrs ch, pos, em, h => by
+    rw [emitTree] at h
+    obtain ⟨code, _, h⟩ := bind_ok_inv h
+    obtain ⟨a, ha, h⟩ := bind_ok_inv h
+    obtain ⟨k, hk, h⟩ := bind_ok_inv h
+    obtain ⟨sibBs, hsib, h⟩ := bind_ok_inv h
+    simp only [Out.pure_eq, Out.ok.injEq] at h
+    have hsl : sibBs.length = if (sib && !ch.isEmpty) = true then cx.enc.word else 0 := by
+      by_cases hc : (sib && !ch.isEmpty) = true
+      · simp only [hc, if_true] at hsib ⊢; exact writeUdata_length _ _ _ _ hsib
+      · have hc' : (sib && !ch.isEmpty) = false := by simpa using hc
+        rw [hc'] at hsib ⊢
+        simp at hsib
+        subst hsib; rfl
+    obtain ⟨a1, a2⟩ := attrsEmit_placed cx attrs _ a ha
+    have hk' : Placed (pos + (Leb.encodeU code).length + sibBs.length + a.bytes.length)
+          (pos + (Leb.encodeU code).length + sibBs.length + a.bytes.length + k.bytes.length) (holesU cx.enc.word k) ∧
+        Placed (pos + (Leb.encodeU code).length + sibBs.length + a.bytes.length)
+          (pos + (Leb.encodeU code).length + sibBs.length + a.bytes.length + k.bytes.length) (holesI k.ifix) := by
+      rw [hsl]
+      cases ch with
+      | nil =>
+        simp only [Out.pure_eq, Out.ok.injEq] at hk
+        subst hk; simp [holesU, holesI, Placed]
+      | cons t rest =>
+        simp only at hk
+        obtain ⟨k0, hk0, hk⟩ := bind_ok_inv hk
+        simp only [Out.pure_eq, Out.ok.injEq] at hk
+        subst hk
+        obtain ⟨f1, f2⟩ := emitForest_placed cx (.cons t rest) _ k0 hk0
+        simp only [Emit.append_bytes, Emit.ofBytes, List.length_append, holesU_append, Emit.append_ifix,
+          holesI_append]
+        refine ⟨?_, ?_⟩
+        · have : holesU cx.enc.word ({ bytes := [0] } : Emit) = [] := rfl
+          rw [this, List.append_nil]
+          exact Placed.weaken f1 (Nat.le_refl _) (by omega)
+        · have : holesI ({ bytes := [0] } : Emit).ifix = [] := rfl
+          rw [this, List.append_nil]
+          exact Placed.weaken f2 (Nat.le_refl _) (by omega)
+    rw [hsl] at hk'
+    rw [← hsl] at hk' a1 a2
+    subst h
+    simp only [Emit.append_bytes, List.length_append, holesU_append, Emit.append_ifix, holesI_append]
+    have e0 : holesU cx.enc.word ({ bytes := Leb.encodeU code ++ sibBs, starts := [(id, pos)] } : Emit) = [] := rfl
+    have e1 : holesI ({ bytes := Leb.encodeU code ++ sibBs, starts := [(id, pos)] } : Emit).ifix = [] := rfl
+    rw [e0, e1, List.nil_append, List.nil_append]
+    have hlen : pos + ((Leb.encodeU code).length + sibBs.length + a.bytes.length + k.bytes.length) =
+        pos + (Leb.encodeU code).length + sibBs.length + a.bytes.length + k.bytes.length := by omega
+    rw [hlen]
+    exact ⟨Placed.append (Placed.weaken a1 (by omega) (Nat.le_refl _)) hk'.1,
+           Placed.append (Placed.weaken a2 (by omega) (Nat.le_refl _)) hk'.2⟩
+theorem emitForest_placed (cx : Ctx) : ∀ (f : Forest) (pos : Nat) (em : Emit), emitForest cx pos f = .ok em →
+    Placed pos (pos + em.bytes.length) (holesU cx.enc.word em) ∧
+    Placed pos (pos + em.bytes.length) (holesI em.ifix)
+  | .nil, pos, em, h => by
+    simp only [emitForest, Out.pure_eq, Out.ok.injEq] at h; subst h; simp [holesU, holesI, Placed]
+  | .cons t rest, pos, em, h => by
+    rw [emitForest] at h
+    obtain ⟨a, ha, h⟩ := bind_ok_inv h
+    obtain ⟨r, hr, h⟩ := bind_ok_inv h
+    simp only [Out.pure_eq, Out.ok.injEq] at h; subst h
+    obtain ⟨a1, a2⟩ := emitTree_placed cx t pos a ha
+    obtain ⟨r1, r2⟩ := emitForest_placed cx rest _ r hr
+    simp only [Emit.append_bytes, List.length_append, ← Nat.add_assoc, holesU_append, Emit.append_ifix,
+      holesI_append]
+    exact ⟨Placed.append a1 r1, Placed.append a2 r2⟩
+end
+
+theorem writeUdata_ok_eq (e : Endian) (v size : Nat) (bs : Bytes) (h : writeUdata e v size = .ok bs) :
+    bs = toBytes e size v := by
+  unfold writeUdata at h
+  split at h
+  · split at h
+    · simp at h
+    · simpa using h.symm
+  · split at h
+    · rename_i h8; subst h8; simpa using h.symm
+    · simp at h
+
+/-- the `unit_refs` loop over placeholders that do not overlap: afterwards every placeholder
+holds the unit offset of the entry it names, and nothing outside `[lo, hi)` has changed -/
+theorem patchUnitRefs_placed (e : Endian) (word : Nat) (o : Offs) : ∀ (refs : List (Nat × Nat))
+    (info info' : Bytes) (lo hi : Nat), patchUnitRefs e word o info refs = .ok info' →
+    Placed lo hi (refs.map (fun r => (r.1, word))) →
+    (∀ r ∈ refs, ∃ u, o.unitOffset r.2 = .ok (some u) ∧
+      ∀ i, i < word → info'[r.1 + i]? = (toBytes e word u)[i]?) ∧
+    (∀ i, i < lo ∨ hi ≤ i → info'[i]? = info[i]?) ∧ info'.length = info.length
+  | [], info, info', lo, hi, h, _ => by
+    simp only [patchUnitRefs, Out.ok.injEq] at h
+    subst h; simp
+  | (pos, id) :: rest, info, info', lo, hi, h, hp => by
+    rw [patchUnitRefs] at h
+    obtain ⟨r, hr, h⟩ := bind_ok_inv h
+    cases r with
+    | none => simp at h
+    | some u =>
+      simp only at h
+      obtain ⟨b, hb, h⟩ := bind_ok_inv h
+      obtain ⟨info1, hw, h⟩ := bind_ok_inv h
+      simp only [List.map_cons, Placed] at hp
+      obtain ⟨i1, i2, i3⟩ := patchUnitRefs_placed e word o rest info1 info' (pos + word) hi h hp.2
+      have hg := writeAt_getElem? _ _ _ _ hw
+      have hbl := writeUdata_length _ _ _ _ hb
+      have hbe := writeUdata_ok_eq _ _ _ _ hb
+      have hle := Placed.le hp.2
+      refine ⟨?_, ?_, i3.trans (writeAt_length _ _ _ _ hw).1⟩
+      · intro r hmem
+        simp only [List.mem_cons] at hmem
+        rcases hmem with hmem | hmem
+        · subst hmem
+          refine ⟨u, hr, ?_⟩
+          intro i hi'
+          simp only
+          rw [i2 (pos + i) (Or.inl (by omega)), hg, hbl]
+          have : pos ≤ pos + i ∧ pos + i < pos + word := by omega
+          simp [this, hbe]
+        · exact i1 r hmem
+      · intro i hi'
+        rw [i2 i (by omega), hg, hbl]
+        have : ¬ (pos ≤ i ∧ i < pos + word) := by have := hp.1; omega
+        simp [this]
+
+/-- the same for `write_debug_info_fixups` -/
+theorem applyFixups_placed (e : Endian) (units : List Offs) : ∀ (fx : List IFix) (info info' : Bytes)
+    (lo hi : Nat), applyFixups e units info fx = .ok info' → Placed lo hi (holesI fx) →
+    (∀ f ∈ fx, ∃ o off, units[f.unit]? = some o ∧ o.debugInfoOffset f.id = .ok (some off) ∧
+      ∀ i, i < f.size → info'[f.pos + i]? = (toBytes e f.size off)[i]?) ∧
+    (∀ i, i < lo ∨ hi ≤ i → info'[i]? = info[i]?) ∧ info'.length = info.length
+  | [], info, info', lo, hi, h, _ => by
+    simp only [applyFixups, Out.ok.injEq] at h
+    subst h; simp
+  | f :: rest, info, info', lo, hi, h, hp => by
+    rw [applyFixups] at h
+    cases hu : units[f.unit]? with
+    | none => simp [hu] at h
+    | some o =>
+      simp only [hu] at h
+      obtain ⟨r, hr, h⟩ := bind_ok_inv h
+      cases r with
+      | none => simp at h
+      | some off =>
+        simp only at h
+        obtain ⟨b, hb, h⟩ := bind_ok_inv h
+        obtain ⟨info1, hw, h⟩ := bind_ok_inv h
+        simp only [holesI, List.map_cons, Placed] at hp
+        obtain ⟨i1, i2, i3⟩ := applyFixups_placed e units rest info1 info' (f.pos + f.size) hi h hp.2
+        have hg := writeAt_getElem? _ _ _ _ hw
+        have hbl := writeUdata_length _ _ _ _ hb
+        have hbe := writeUdata_ok_eq _ _ _ _ hb
+        have hle := Placed.le hp.2
+        refine ⟨?_, ?_, i3.trans (writeAt_length _ _ _ _ hw).1⟩
+        · intro g hmem
+          simp only [List.mem_cons] at hmem
+          rcases hmem with hmem | hmem
+          · subst hmem
+            refine ⟨o, off, hu, hr, ?_⟩
+            intro i hi'
+            rw [i2 (g.pos + i) (Or.inl (by omega)), hg, hbl]
+            have : g.pos ≤ g.pos + i ∧ g.pos + i < g.pos + g.size := by omega
+            simp [this, hbe]
+          · exact i1 g hmem
+        · intro i hi'
+          rw [i2 i (by omega), hg, hbl]
+          have : ¬ (f.pos ≤ i ∧ i < f.pos + f.size) := by have := hp.1; omega
+          simp [this]
+
+/-- **Every `UnitRef` placeholder ends up holding the unit offset of the entry it names.**
+`pre` is everything in `.debug_info` before the root entry (earlier units, this unit's header),
+`em` what pass 2 emitted for the tree.  After the `unit_refs` loop, for every recorded reference
+`(pos, id)`: the entry `id` was written by pass 2 at some position `target`, pass 1 had assigned
+exactly `target` to it, and the `word` bytes at `pos` are the encoding of `target - unitOff`.
+Nothing before the root entry is modified. -/
+theorem unit_refs_resolve' (cx : Ctx) (t : Tree) (unitOff n : Nat) (p1 : P1) (em : Emit) (pre info' : Bytes)
+    (hnd : t.ids.Nodup)
+    (hc : calcTree cx.enc (p1Init pre.length unitOff n) t = .ok p1)
+    (hoffs : cx.offs = p1.offs) (hcodes : cx.codes = p1.codes)
+    (he : emitTree cx pre.length t = .ok em)
+    (hp : patchUnitRefs cx.endian cx.enc.word p1.offs (pre ++ em.bytes) em.urefs = .ok info') :
+    (∀ r ∈ em.urefs, ∃ target, (r.2, target) ∈ em.starts ∧ p1.offs.map r.2 = some target ∧
+      ∀ i, i < cx.enc.word → info'[r.1 + i]? = (toBytes cx.endian cx.enc.word (target - unitOff))[i]?) ∧
+    (∀ i, i < pre.length → info'[i]? = pre[i]?) ∧ info'.length = pre.length + em.bytes.length := by
+  have hx : p1.ExtCx cx := ⟨hoffs ▸ Offs.Ext.refl _, fun j c hj => by rw [hcodes]; exact hj⟩
+  obtain ⟨e1, e2, e3⟩ := emitTree_exact cx t _ p1 em hc he hnd (fun _ _ => ⟨rfl, rfl⟩) hx
+  obtain ⟨f1, f2, f3⟩ := calcTree_frame cx.enc t _ p1 hc
+  obtain ⟨pl, _⟩ := emitTree_placed cx t _ em he
+  obtain ⟨q1, q2, q3⟩ := patchUnitRefs_placed cx.endian cx.enc.word p1.offs em.urefs _ info' _ _ hp pl
+  refine ⟨?_, ?_, by rw [q3, List.length_append]⟩
+  · intro r hr
+    obtain ⟨u, hu, hbytes⟩ := q1 r hr
+    -- the offset pass 1 holds for `r.2`
+    unfold Offs.unitOffset Offs.debugInfoOffset at hu
+    by_cases hlt : r.2 < p1.offs.n
+    · simp only [hlt, if_true, Out.bind_ok, Out.pure_eq, Out.ok.injEq] at hu
+      cases hm : p1.offs.map r.2 with
+      | none => simp [hm] at hu
+      | some off =>
+        simp only [hm, Option.map_some, Option.some.injEq] at hu
+        have hmem : r.2 ∈ t.ids := by
+          apply Classical.byContradiction
+          intro hn
+          have := (f3 r.2 hn).1
+          simp only [p1Init] at this
+          rw [this] at hm; cases hm
+        rw [← e3] at hmem
+        obtain ⟨p, hp1, hp2⟩ := List.mem_map.mp hmem
+        have hst := e2 p hp1
+        rw [hoffs, hp2, hm] at hst
+        have htar : p.2 = off := (Option.some.inj hst).symm
+        refine ⟨off, ?_, rfl, ?_⟩
+        · have : p = (r.2, off) := by rw [← hp2, ← htar]
+          rw [← this]; exact hp1
+        · intro i hi
+          rw [hbytes i hi, ← hu]
+          have : p1.offs.unit = unitOff := by rw [f1]; rfl
+          rw [this]
+    · simp [hlt] at hu
+  · intro i hi
+    rw [q2 i (Or.inl hi), List.getElem?_append_left hi]
+
+/-! ## `Unit::write` and `Dwarf::write` as a whole -/
+
+theorem writeInitialLength_length (e : Endian) (f : Format) (len : Nat) (lf : Bytes)
+    (h : writeInitialLength e f len = .ok lf) : lf.length = initLenSize f := by
+  cases f with
+  | dwarf32 =>
+    simp only [writeInitialLength] at h
+    split at h
+    · simp at h
+    · exact writeUdata_length _ _ _ _ h
+  | dwarf64 =>
+    simp only [writeInitialLength] at h
+    obtain ⟨bs, hb, h⟩ := bind_ok_inv h
+    simp only [Out.pure_eq, Out.ok.injEq] at h
+    subst h
+    simp [initLenSize, toBytes_length, writeUdata_length _ _ _ _ hb]
+
+/-- the steps of a successful `Unit::write`, named -/
+theorem writeUnit_inv (e : Endian) (so lso : List Nat) (s s' : Sec) (u : UnitIn) (o : Offs)
+    (h : writeUnit e so lso s u = .ok (s', o)) :
+    ∃ hdr p1 em lf,
+      unitHeader e u.enc s.abbr.length = .ok hdr ∧
+      calcTree u.enc (p1Init (s.info.length + initLenSize u.enc.format + hdr.length) s.info.length u.nEntries)
+        (unitRoot u) = .ok p1 ∧
+      emitTree (unitCtx e so lso u p1) (s.info.length + initLenSize u.enc.format + hdr.length) (unitRoot u) = .ok em ∧
+      writeInitialLength e u.enc.format (hdr.length + em.bytes.length) = .ok lf ∧
+      patchUnitRefs e u.enc.word p1.offs (s.info ++ lf ++ hdr ++ em.bytes) em.urefs = .ok s'.info ∧
+      s'.abbr = s.abbr ++ abbrevTableWrite p1.abbrevs ∧ s'.ifix = s.ifix ++ em.ifix ∧ o = p1.offs := by
+  unfold writeUnit at h
+  simp only at h
+  obtain ⟨hdr, h1, h⟩ := bind_ok_inv h
+  obtain ⟨p1, h2, h⟩ := bind_ok_inv h
+  obtain ⟨em, h3, h⟩ := bind_ok_inv h
+  obtain ⟨lf, h4, h⟩ := bind_ok_inv h
+  obtain ⟨info, h5, h⟩ := bind_ok_inv h
+  simp only [Out.pure_eq, Out.ok.injEq, Prod.mk.injEq] at h
+  obtain ⟨hs, ho⟩ := h
+  subst hs ho
+  exact ⟨hdr, p1, em, lf, h1, h2, h3, h4, h5, rfl, rfl, rfl⟩
+
+/-- a unit write leaves the bytes of earlier units alone and appends exactly its own bytes -/
+theorem writeUnit_frame (e : Endian) (so lso : List Nat) (s s' : Sec) (u : UnitIn) (o : Offs)
+    (h : writeUnit e so lso s u = .ok (s', o)) : ∀ i, i < s.info.length → s'.info[i]? = s.info[i]? := by
+  obtain ⟨hdr, p1, em, lf, _, _, h3, h4, h5, _, _, _⟩ := writeUnit_inv e so lso s s' u o h
+  obtain ⟨pu, _⟩ := emitTree_placed _ _ _ _ h3
+  have hl := writeInitialLength_length _ _ _ _ h4
+  have hpre : (s.info ++ lf ++ hdr).length = s.info.length + initLenSize u.enc.format + hdr.length := by
+    simp [hl]; omega
+  have hpu : Placed (s.info ++ lf ++ hdr).length ((s.info ++ lf ++ hdr).length + em.bytes.length)
+      (List.map (fun r => (r.1, u.enc.word)) em.urefs) := by rw [hpre]; exact pu
+  obtain ⟨_, q2, _⟩ := patchUnitRefs_placed e u.enc.word p1.offs em.urefs _ s'.info _ _ h5 hpu
+  intro i hi
+  rw [q2 i (Or.inl (by rw [hpre]; omega))]
+  rw [List.append_assoc, List.append_assoc, List.getElem?_append_left hi]
+
+/-- the pending cross-unit fix-ups stay ordered, disjoint and inside the section -/
+theorem writeUnit_ifix_placed (e : Endian) (so lso : List Nat) (s s' : Sec) (u : UnitIn) (o : Offs)
+    (h : writeUnit e so lso s u = .ok (s', o)) (hp : Placed 0 s.info.length (holesI s.ifix)) :
+    Placed 0 s'.info.length (holesI s'.ifix) ∧ s.info.length ≤ s'.info.length ∧
+      ∀ i, i < s.info.length → s'.info[i]? = s.info[i]? := by
+  obtain ⟨hdr, p1, em, lf, _, _, h3, h4, h5, _, h7, _⟩ := writeUnit_inv e so lso s s' u o h
+  obtain ⟨_, pl⟩ := emitTree_placed _ _ _ _ h3
+  obtain ⟨pu, _⟩ := emitTree_placed _ _ _ _ h3
+  have hl := writeInitialLength_length _ _ _ _ h4
+  have hpre : (s.info ++ lf ++ hdr).length = s.info.length + initLenSize u.enc.format + hdr.length := by
+    simp [hl]; omega
+  have hpu : Placed (s.info ++ lf ++ hdr).length ((s.info ++ lf ++ hdr).length + em.bytes.length)
+      (List.map (fun r => (r.1, u.enc.word)) em.urefs) := by rw [hpre]; exact pu
+  obtain ⟨_, q2, q3⟩ := patchUnitRefs_placed e u.enc.word p1.offs em.urefs _ s'.info _ _ h5 hpu
+  have hlen : s'.info.length = s.info.length + initLenSize u.enc.format + hdr.length + em.bytes.length := by
+    rw [q3]; simp [hl]; omega
+  refine ⟨?_, by omega, ?_⟩
+  · rw [h7, holesI_append, hlen]
+    exact Placed.append (Placed.weaken hp (Nat.le_refl _) (by omega)) pl
+  · intro i hi
+    rw [q2 i (Or.inl (by rw [hpre]; omega))]
+    rw [List.append_assoc, List.append_assoc, List.getElem?_append_left hi]
+
+theorem writeUnits_ifix_placed (e : Endian) (so lso : List Nat) : ∀ (units : List UnitIn) (s s' : Sec)
+    (offs : List Offs), writeUnits e so lso s units = .ok (s', offs) →
+    Placed 0 s.info.length (holesI s.ifix) → Placed 0 s'.info.length (holesI s'.ifix)
+  | [], s, s', offs, h, hp => by
+    simp only [writeUnits, Out.ok.injEq, Prod.mk.injEq] at h
+    rw [← h.1]; exact hp
+  | u :: rest, s, s', offs, h, hp => by
+    rw [writeUnits] at h
+    obtain ⟨⟨s1, o⟩, h1, h⟩ := bind_ok_inv h
+    obtain ⟨⟨s2, os⟩, h2, h⟩ := bind_ok_inv h
+    simp only [Out.pure_eq, Out.ok.injEq, Prod.mk.injEq] at h
+    rw [← h.1]
+    exact writeUnits_ifix_placed e so lso rest s1 s2 os h2 (writeUnit_ifix_placed e so lso s s1 u o h1 hp).1
+
+/-- the `DW_AT_sibling` value of an entry is the unit offset of the first byte after everything
+the entry and its subtree emitted -/
+theorem sibling_value (cx : Ctx) (pos id tag : Nat) (attrs : List (Nat × AttrVal)) (t : Tree) (rest : Forest)
+    (em : Emit) (h : emitTree cx pos (.node id tag true attrs (.cons t rest)) = .ok em) :
+    ∃ code tail, em.bytes = Leb.encodeU code ++
+        toBytes cx.endian cx.enc.word (pos + em.bytes.length - cx.offs.unit) ++ tail := by
+  rw [emitTree] at h
+  obtain ⟨code, _, h⟩ := bind_ok_inv h
+  obtain ⟨a, ha, h⟩ := bind_ok_inv h
+  obtain ⟨k, hk, h⟩ := bind_ok_inv h
+  obtain ⟨sibBs, hsib, h⟩ := bind_ok_inv h
+  simp only [Forest.isEmpty, Bool.not_false, Bool.and_true, if_true] at hsib
+  simp only [Out.pure_eq, Out.ok.injEq] at h
+  have hl := writeUdata_length _ _ _ _ hsib
+  have he := writeUdata_ok_eq _ _ _ _ hsib
+  refine ⟨code, a.bytes ++ k.bytes, ?_⟩
+  subst h
+  simp only [Emit.append_bytes, List.append_assoc] at he ⊢
+  rw [he]
+  congr 3
+  simp only [List.length_append, toBytes_length]
+  omega
+
 
 end Gimli.WUnit
